@@ -90,13 +90,15 @@ FLOORS = {"quick": {"judged": 5500, "judged_levels": 380,
                     "judged_sequences": 1200, "second_calls": 4500,
                     "reopen_checked": 1500, "close_checked": 400,
                     "factory_reopen_checked": 100,
-                    "foreign_handlers_checked": 300},
+                    "foreign_handlers_checked": 300,
+                    "latedir_checked": 18},
           "thorough": {"judged": 60000, "judged_levels": 380,
                        "judged_handlers": 15000, "judged_formats": 35000,
                        "judged_sequences": 14000, "second_calls": 50000,
                        "reopen_checked": 20000, "close_checked": 4500,
                        "factory_reopen_checked": 1200,
-                       "foreign_handlers_checked": 3000}}
+                       "foreign_handlers_checked": 3000,
+                       "latedir_checked": 18}}
 HOOK_FLOORS = {"quick": {"addHandler": 7000, "handler_init": 3000,
                          "handler_close": 3000, "handler_reopen": 1500},
                "thorough": {"addHandler": 80000, "handler_init": 35000,
@@ -192,6 +194,9 @@ def real_path(path, casedir):
         return path
     if path.startswith("FILE:"):
         path = path[5:]
+    if path.startswith("late/"):
+        # a directory that the late-directory scenario creates in time
+        return os.path.join(casedir, "late", os.path.basename(path) or "log")
     return os.path.join(casedir, os.path.basename(path) or "log")
 
 
@@ -989,6 +994,107 @@ def run_seq_case(env, case, res):
         mon.forget_all()
         gc.collect()
         shutil.rmtree(casedir, ignore_errors=True)
+
+
+def run_latedir_case(env, case, res):
+    """A logger whose later handler cannot be built at the first call (its
+    directory does not exist yet).  The call fails; the directory appears;
+    the next call succeeds.  From then on the logger has exactly one handler
+    per section, all alive and registered: reopenFiles() reopens every one,
+    closeFiles() closes every one."""
+    res.evaluations += 1
+    mon = env.mon
+    casedir = env.newdir()
+    text = render_text(case, casedir)
+    spec = case["loggers"][0]
+    late = os.path.join(casedir, "late")
+    try:
+        with logmon.Sandbox(env.loghandler):
+            mon.clear()
+            try:
+                cfg, _ = env.loadConfigFile(env.schema, io.StringIO(text))
+            except Exception as exc:  # noqa
+                res.violate("refused-but-must-accept", case, "accepted",
+                            exc_brief(exc), detail=text, vsig="late-load")
+                return
+            f = cfg.loggers[0]
+            try:
+                f()
+                first = "returned"
+            except Exception as exc:  # noqa
+                first = type(exc).__name__
+            res.sig("latedir|%s|%s" % (first, "".join(
+                seq_handler_letter(h) for h in spec["handlers"])))
+            os.makedirs(late)
+            try:
+                lg = f()
+            except Exception as exc:  # noqa
+                res.violate("accepted-config-factory-raises", case,
+                            "the configured logger once the directory "
+                            "exists", exc_brief(exc), vsig="late-second")
+                return
+            hs = list(lg.handlers)
+            serials = [mon.serial_of(h) for h in hs]
+            paths = [os.path.basename(getattr(h, "baseFilename", "?"))
+                     for h in hs]
+            want = [os.path.basename(real_path(h["path"], casedir))
+                    for h in spec["handlers"]]
+            if paths != want or None in serials or \
+                    len(set(serials)) != len(serials):
+                res.violate("handler-count", case, want, paths,
+                            detail="after a first call that failed with %s "
+                            "and a second that succeeded" % first,
+                            vsig="late-handlers")
+                return
+            pre = {s_: mon.get(s_).stream for s_ in serials}
+            mon.clear()
+            env.loghandler.reopenFiles()
+            touched = mon.serials("reopen")
+            mon.clear()
+            if sorted(touched) != sorted(serials):
+                res.violate("reopenFiles-wrong-handler-set", case,
+                            {"must_reopen": sorted(serials)},
+                            {"reopened": touched},
+                            detail="all %d file handlers are attached and "
+                            "alive (first call failed with %s)"
+                            % (len(serials), first), vsig="late-reopen")
+                return
+            for h in hs:
+                h.handle(make_record(ASCII_RECORD))
+            env.loghandler.closeFiles()
+            left = [os.path.basename(h.baseFilename) for h in hs
+                    if h.stream is not None and not h.stream.closed]
+            if left:
+                res.violate("closeFiles-stream-left-open", case,
+                            "every attached file handler closed", left,
+                            detail="first call failed with %s" % first,
+                            vsig="late-close")
+                return
+            del pre
+            res.count("judged")
+            res.count("latedir_checked")
+    finally:
+        mon.forget_all()
+        gc.collect()
+        shutil.rmtree(casedir, ignore_errors=True)
+
+
+def latedir_cases():
+    n = 0
+    fmt = {"style": "classic", "format": "%(levelname)s %(message)s"}
+    for kinds in itertools.product("fst", repeat=2):
+        for extra in (0, 1):
+            n += 1
+            hs = []
+            for j, kd in enumerate(kinds + (("f",) if extra else ())):
+                opts = dict([x for x in SEQ_HANDLERS if x[0] == kd][0][1])
+                # the first handler is fine, the later ones live in a
+                # directory that does not exist at the first call
+                path = "FILE:l%d.log" % j if j == 0 else \
+                    "FILE:late/l%d.log" % j
+                hs.append(dict(fmt, path=path, **opts))
+            yield {"kind": "latedir", "loggers": [
+                {"type": "logger", "name": "zcvl%d" % n, "handlers": hs}]}
 
 
 class SeqState:
@@ -1914,6 +2020,8 @@ def run_case(env, case, res):
         run_level_direct(env, case, res)
     elif kind == "seq":
         run_seq_case(env, case, res)
+    elif kind == "latedir":
+        run_latedir_case(env, case, res)
     else:
         raise ValueError("unknown case kind %r" % kind)
 
@@ -1980,6 +2088,10 @@ def _run_shard(ctx):
                 for case in unit:
                     run_case(env, case, res)
         for case in directed_sequences():
+            i += 1
+            if ctx.mine(i):
+                run_case(env, case, res)
+        for case in latedir_cases():
             i += 1
             if ctx.mine(i):
                 run_case(env, case, res)
